@@ -248,6 +248,18 @@ def _apply_assignments(V, cs, assign, where="assign"):
     return accepted
 
 
+def _keyset_class(style, miss, extra, changed):
+    """Class of a wrong key set: a changed setting that was omitted is named (it may be peculiar to that
+    setting); omitted default-valued entries are one class per style (which entry it is depends only
+    on which one the case asked to be listed); an entry that should not be there is named."""
+    mc = [n for n in miss if n in changed]
+    if mc:
+        return "%s-style-omits-changed:%s" % (style, mc[0])
+    if miss:
+        return "%s-style-omits-listed-default" % style + (":" + miss[0] if style == "full" and len(miss) <= 2 else "")
+    return "%s-style-writes-unchanged:%s" % (style, extra[0])
+
+
 def _roundtrip(V, cs, style, by_user, src, dflt):
     """write ``cs`` in ``style``, check the key set, read into a fresh Settings, compare everything."""
     changed = set(n for n in src if src[n] != dflt[n])
@@ -278,8 +290,7 @@ def _roundtrip(V, cs, style, by_user, src, dflt):
         want = set(src)
     if set(keys) != want:
         miss, extra = sorted(want - set(keys)), sorted(set(keys) - want)
-        tag = (miss + extra)[0]
-        V.bad("%s-style-key-set:%s" % (style, tag), "style %s: missing %s, unexpected %s (changed settings: %s)" % (style, miss, extra, sorted(changed)))
+        V.bad(_keyset_class(style, miss, extra, changed), "style %s: missing %s, unexpected %s (changed settings: %s)" % (style, _short(miss), extra, sorted(changed)))
     skip = set()
     try:
         back, reader = _load(text)
@@ -643,7 +654,7 @@ def _eval_file(case):
         tree, keys = _doc_keys(text)
         want = set(n for n in src2 if src2[n] != dflt[n]) | (changed & set(src2)) | {"versions"}
         if set(keys) != want:
-            V.bad("medium-style-key-set:" + sorted(set(keys) ^ want)[0], "file route: medium re-write over a file listing %s: keys %s, expected %s" % (sorted(changed), sorted(keys), sorted(want)))
+            V.bad(_keyset_class("medium", sorted(want - set(keys)), sorted(set(keys) - want), set(n for n in src2 if src2[n] != dflt[n])), "file route: medium re-write over a file listing %s: keys %s, expected %s" % (sorted(changed), sorted(keys), sorted(want)))
         third = settings.Settings(p1)
         got3 = _snap(third)
         for n in _diff(src2, got3):
